@@ -424,6 +424,29 @@ def judge_c07(d):
     return None
 
 
+def judge_c16(d):
+    q, impl, model = d["query"], d["impl"], d["model"]
+    if q.startswith("c16 families"):
+        return "the series exported by Metrics::collect are [%s]; METRICS.md documents [%s]" % (impl, model)
+    ops = q.split("ops=")[1].split(";")
+    io, mo = impl.split(" | "), model.split(" | ")
+    names = {"s": "client_sessions (http1/http2)", "t": "outbound_tcp_sockets", "u": "outbound_udp_sockets",
+             "up": "bytes relayed client->peer (http1/http2)", "dn": "bytes relayed peer->client (http1/http2)"}
+    for k, (a, b) in enumerate(zip(io, mo)):
+        if a == b:
+            continue
+        hist = ";".join(ops[:k + 1])
+        if a.startswith("listener:") or b.startswith("listener:"):
+            return "after %s the metrics listener answered [%s], the live objects and relayed bytes give [%s]" % (";".join(ops), a, b)
+        for x, y in zip(a.split(), b.split()):
+            if x != y:
+                key = "up" if x.startswith("up") else "dn" if x.startswith("dn") else x[0]
+                return "after %s: %s reads %s, the live objects / relayed bytes give %s" % (hist, names.get(key, key), x, y)
+    if len(io) != len(mo):
+        return "history %s: %d observations, model %d" % (q, len(io), len(mo))
+    return None
+
+
 def judge_c19(d):
     q, impl, model = d["query"], d["impl"], d["model"]
     io, mo = impl.split(","), model.split(",")
@@ -704,6 +727,36 @@ PROPS = {
                  "the SOCKS5 forwarder's multiplexer (same UdpDatagramPipeShared contract) is read, not driven by this suite (C13 "
                  "drives its association exchange)"],
         assumptions=["a stale reply could reach a new socket only if the kernel reused the ephemeral port within the history; ignored"],
+    ),
+    "C16": dict(
+        suites=["c16"],
+        judge=judge_c16,
+        level="proof",
+        rule="17 directed and 120 (thorough 1200) random histories of 4-16 events {open an HTTP/1.1 or HTTP/2 session, client drops a "
+             "session, CONNECT to a listening origin / a refusing port / a port that never answers / the UDP multiplexer, 1-70000 bytes "
+             "up or down on a tunnel, client ends / resets its stream, origin closes, UDP datagram / reply on 10 flows, clock advance "
+             "(1 ms, around the connect timeout, around the UDP timeout, 3 x TCP idle timeout)} through real tunnel sessions (in-memory "
+             "transports, real direct forwarder, loopback TCP and UDP servers) under tokio's paused clock; after every event the five "
+             "series are read from the text Metrics::collect produces; for a third of the histories the real metrics listener is bound "
+             "to a loopback port and GET /metrics, /health-check and another path are issued over TCP at the end; one run lists the "
+             "exported families, types and label names/values against METRICS.md",
+        explanation="theorems cells_equal_objects, gauges_nonneg, all_clients_gone_sessions_udp_zero, all_clients_gone_everything_zero, "
+                    "refused_connect_balanced, hanging_connect_released_by_timeout, counters_monotone, up_adds_exactly, "
+                    "down_adds_exactly, no_relay_no_bytes, udp_bytes_follow_multiplexer, documented_series, documented_paths about "
+                    "TT/Model/Metrics.lean (which embeds TT/Model/UdpFlows.lean) and the table regenerated from METRICS.md",
+        trusted=["which exported series the client->peer bytes feed is calibrated at the start of every run (3 bytes up, 5 down) and "
+                 "then required to be the same everywhere: the property does not fix the orientation (the code feeds "
+                 "outbound_traffic_bytes with uploads, METRICS.md and the HELP strings say inbound = uploaded; recorded in DESIGN.md)",
+                 "TCP idle expiry is exercised only with advances of 3 x timeout (its exact timing is C14's subject); connect-timeout "
+                 "and UDP expiry are exact",
+                 "client_sessions counts tunnel sessions (Core::on_tunnel_request); ping / speedtest / reverse-proxy connections hold "
+                 "no guard in the code and are not driven here",
+                 "HTTP/3 sessions, the SOCKS5 forwarder and the ICMP multiplexer are not driven",
+                 "prometheus crate text encoding; Linux loopback TCP (origin sockets use TCP_NODELAY) and a full accept queue to make a "
+                 "connect hang"],
+        assumptions=["an origin connection whose client vanished lingers until the endpoint next writes to the client or the tunnel "
+                     "idles out (HTTP/2: a connection-level I/O error is read as end of stream): the model follows the code, the "
+                     "zero-when-gone theorem is stated after the timeouts"],
     ),
     "C19": dict(
         suites=["c19"],
